@@ -93,7 +93,33 @@ fn loaded_obs(kp: &KeyPair, orig: &KeyInfo, req: Option<&'static SignatureAlgori
 			Outcome::Panic(m) => json!({"k": "panic", "pubRaw": "", "alg": m}),
 		}
 	};
+	// the exported forms through every loading entry point, told the key's own algorithm where one is asked for
+	let own = kp.algorithm();
+	let pem_text = kp.serialize_pem();
+	let reloads: Vec<Value> = ["pkcs8-explicit", "der-explicit", "pem-explicit", "pkcs8-pem-explicit", "auto-slice", "auto-vec", "auto-pkcs8", "auto-der", "auto-pem"]
+		.iter()
+		.map(|entry| {
+			let explicit = entry.ends_with("explicit");
+			let r = guarded(|| {
+				if entry.contains("pem") {
+					match *entry {
+						"pem-explicit" => KeyPair::from_pem_and_sign_algo(&pem_text, own),
+						"pkcs8-pem-explicit" => KeyPair::from_pkcs8_pem_and_sign_algo(&pem_text, own),
+						_ => KeyPair::from_pem(&pem_text),
+					}
+				} else {
+					load_via(&exported, "PRIVATE KEY", entry, if explicit { Some(own) } else { None })
+				}
+			});
+			match r {
+				Outcome::Ok(k2) => json!({"entry": entry, "k": "ok", "pubRaw": hex(k2.public_key_raw()), "alg": alg_name(k2.algorithm()), "sameBytes": k2.serialize_der() == exported}),
+				Outcome::Err(e) => json!({"entry": entry, "k": "err", "pubRaw": "", "alg": e, "sameBytes": false}),
+				Outcome::Panic(m) => json!({"entry": entry, "k": "panic", "pubRaw": "", "alg": m, "sameBytes": false}),
+			}
+		})
+		.collect();
 	json!({
+		"reloads": reloads,
 		"alg": alg, "pubRaw": hex(kp.public_key_raw()), "sigOk": sig_ok,
 		"spki": spki, "spkiStrict": w.issues_json(), "spkiBack": back,
 		"isCompatibleOwn": kp.is_compatible(kp.algorithm()),
@@ -136,6 +162,25 @@ fn origins(tier: &str, rng: &mut Rng) -> Vec<Origin> {
 			if kt.starts_with("rsa") {
 				let p1 = pkey.rsa().unwrap().private_key_to_der().unwrap();
 				out.push(Origin { info: info.clone(), bytes: p1, fmt: "pkcs1".into(), label: "RSA PRIVATE KEY" });
+			}
+		}
+	}
+	// Ed25519 keys whose public key begins / ends with a zero octet or holds 0x00 / 0xff inside (about 1 key in 256 each):
+	// nothing may treat key bits as a number, a C string or a BIT STRING with its own prefix
+	for want in ["lead0", "trail0", "leadff", "lead30"] {
+		for _ in 0..20000 {
+			let info = new_key(&format!("o-ed25519-{}", want), "ed25519", rng);
+			let hit = match want {
+				"lead0" => info.raw_pub[0] == 0,
+				"trail0" => info.raw_pub[31] == 0,
+				"leadff" => info.raw_pub[0] == 0xff,
+				_ => info.raw_pub[0] == 0x30 || info.raw_pub[0] == 0x04,
+			};
+			if hit {
+				let mut info = info;
+				info.src = "openssl".into();
+				out.push(Origin { info: info.clone(), bytes: info.pkcs8.clone(), fmt: "pkcs8v1".into(), label: "PRIVATE KEY" });
+				break;
 			}
 		}
 	}
@@ -269,9 +314,16 @@ fn sha_hex(b: &[u8]) -> String {
 }
 
 fn pem_event(kind: &str, alg: &str, der: &[u8], text: &str, loader_eq: &str, case: &str, out: &mut Out) {
+	pem_event_full(kind, alg, Some(der), text, loader_eq, json!([]), case, out)
+}
+
+/// `der` = None: the DER accessor that corresponds to the text did not return (it panicked).
+fn pem_event_full(kind: &str, alg: &str, der: Option<&[u8]>, text: &str, loader_eq: &str, loaders: Value, case: &str, out: &mut Out) {
 	let mut obs = pemx::inspect(text);
 	obs["loaderEq"] = json!(loader_eq);
-	out.event("Pem", case, json!({"kind": kind, "alg": alg, "derLen": der.len(), "derSha": sha_hex(der)}), "Ok", "", obs);
+	obs["loaders"] = loaders;
+	let d = der.unwrap_or(&[]);
+	out.event("Pem", case, json!({"kind": kind, "alg": alg, "derAvail": der.is_some(), "derLen": d.len(), "derSha": sha_hex(d)}), "Ok", "", obs);
 }
 
 pub fn run_pem(out_path: &str, tier: &str) {
@@ -391,6 +443,48 @@ pub fn run_pem(out_path: &str, tier: &str) {
 				_ => "no",
 			};
 			pem_event("pubkey", alg, &pder, &pt, leq, &case, &mut out);
+		}
+	}
+	// private-key PEM of every key origin (OpenSSL PKCS#8 v1, SEC1, PKCS#1, rcgen-generated) after an auto-detecting
+	// load, offered to each of rcgen's PEM loaders
+	#[cfg(feature = "crypto")]
+	for o in origins(tier, &mut rng) {
+		for entry in ["auto-pem", "auto-slice"] {
+			let kp = match guarded(|| load_via(&o.bytes, o.label, entry, None)) {
+				Outcome::Ok(k) => k,
+				_ => continue, // whether the load must succeed is C11's matter
+			};
+			n += 1;
+			let case = format!("pem/{}", n);
+			let der = kp.serialize_der();
+			let t = kp.serialize_pem();
+			let own = kp.algorithm();
+			let loaders: Vec<Value> = ["from_pem", "from_pem_and_sign_algo", "from_pkcs8_pem_and_sign_algo"]
+				.iter()
+				.map(|f| {
+					let r = guarded(|| match *f {
+						"from_pem" => KeyPair::from_pem(&t),
+						"from_pem_and_sign_algo" => KeyPair::from_pem_and_sign_algo(&t, own),
+						_ => KeyPair::from_pkcs8_pem_and_sign_algo(&t, own),
+					});
+					match r {
+						Outcome::Ok(k2) => json!({"fn": f, "k": "ok", "sameBytes": k2.serialize_der() == der, "samePub": k2.public_key_raw() == kp.public_key_raw()}),
+						Outcome::Err(e) => json!({"fn": f, "k": e, "sameBytes": false, "samePub": false}),
+						Outcome::Panic(m) => json!({"fn": f, "k": format!("panic: {}", m), "sameBytes": false, "samePub": false}),
+					}
+				})
+				.collect();
+			pem_event_full("key", &o.info.alg, Some(&der), &t, "na", Value::Array(loaders), &case, &mut out);
+		}
+	}
+	// a key pair whose private key is not held by rcgen has no DER accessor that returns: no PEM text either
+	{
+		if let Ok(k) = live_key("k-pem-remote", "ed25519", "remote", &mut rng) {
+			if let Ok(t) = guarded_any(|| k.kp.serialize_pem()) {
+				n += 1;
+				let der = guarded_any(|| k.kp.serialize_der()).ok();
+				pem_event_full("key", "ed25519", der.as_deref(), &t, "na", json!([]), &format!("pem/{}", n), &mut out);
+			}
 		}
 	}
 	out.finish();
